@@ -305,6 +305,10 @@ func (e *Expr) CEL() string {
 		return bin("in")
 	case "not":
 		return "!(" + e.A.CEL() + ")"
+	case "idx": // map lookup with a literal key
+		return e.A.CEL() + "[" + strconv.Quote(e.N) + "]"
+	case "add":
+		return bin("+")
 	}
 	panic("bad expr " + e.K)
 }
@@ -325,6 +329,12 @@ func paramType(ty string) *openfgav1.ConditionParamTypeRef {
 	case "list<int>":
 		return &openfgav1.ConditionParamTypeRef{TypeName: openfgav1.ConditionParamTypeRef_TYPE_NAME_LIST,
 			GenericTypes: []*openfgav1.ConditionParamTypeRef{paramType("int")}}
+	case "map<int>":
+		return &openfgav1.ConditionParamTypeRef{TypeName: openfgav1.ConditionParamTypeRef_TYPE_NAME_MAP,
+			GenericTypes: []*openfgav1.ConditionParamTypeRef{paramType("int")}}
+	case "map<string>":
+		return &openfgav1.ConditionParamTypeRef{TypeName: openfgav1.ConditionParamTypeRef_TYPE_NAME_MAP,
+			GenericTypes: []*openfgav1.ConditionParamTypeRef{paramType("string")}}
 	}
 	panic("bad param type " + ty)
 }
